@@ -49,6 +49,13 @@ def cases(tier, seed):
     else:
         add(e1.family_members(2)[0])
         add(e1.family_members(3, {k: family.FEATURES[k] for k in ["filt", "e", "cc", "cons"]})[0])
+    # explicit members: two continuous states where the FIRST declared one has the smaller grid
+    for extra in ({"k": "lin"}, {"k": "log"}, {"k": "lin", "wgrid": "extrap"}):
+        fv = family.normalise(dict(family.BASE, order="srev", **extra))
+        i = e1.fv_id(fv)
+        if i not in seen:
+            seen.add(i)
+            out.append({"id": i, "fv": fv, "dev": 1 + len(extra), "seed": seed, "tier": tier})
     # explicit members: lower-bound constraint + -inf utility at feasible points (T=1, so the model is supported)
     for extra in ({}, {"e": 1}, {"cc": "cl"}, {"filt": "none"}):
         fv = family.normalise(dict(family.BASE, cons="lower", T=1, **extra))
